@@ -137,7 +137,14 @@ def files(f4_witness=False, name_collision=False):
     add_map(ub, f"{PKG}.UsesOther", "ek", 7, "STRING", "ENUM", P + ".Outer.Mid.Kind")
     svc = G.add_service(b, "Lab")
     G.add_method(svc, "Get", P + ".UsesOther", P + ".Scalars", http=("get", "/v1/things"))
-    return [a, b]
+    # files whose base name equals the base name of the dependency file they take a type from
+    c = G.new_file("acme/lab/v1/status.proto", PKG, deps=G.STD_DEPS + ["google/rpc/status.proto"])
+    G.add_message(c, "StatusHolder", [G.F("status", 1, T.TYPE_MESSAGE, type_name=".google.rpc.Status"), G.F("at", 2, T.TYPE_MESSAGE, type_name=".google.protobuf.Timestamp"),
+                                      G.F("note", 3, T.TYPE_STRING)])
+    d = G.new_file("acme/lab/v1/date.proto", PKG, deps=G.STD_DEPS + ["google/type/date.proto", "acme/lab/v1/shapes.proto"])
+    G.add_message(d, "DateRange", [G.F("first", 1, T.TYPE_MESSAGE, type_name=".google.type.Date"), G.F("last", 2, T.TYPE_MESSAGE, type_name=".google.type.Date"),
+                                   G.F("c", 3, T.TYPE_ENUM, type_name=P + ".Color")])
+    return [a, b, c, d]
 
 
 # ---------------------------------------------------------------------------------------------------------------- the oracle
